@@ -12,7 +12,10 @@ import (
 	tq "github.com/facebookincubator/tacquito"
 )
 
-type tqvResp struct{ replies int; statuses []string }
+type tqvResp struct {
+	replies  int
+	statuses []string
+}
 
 func (r *tqvResp) Reply(v tq.EncoderDecoder) (int, error) {
 	r.replies++
@@ -31,8 +34,8 @@ func (r *tqvResp) Context(ctx context.Context)     {}
 
 type tqvLog struct{}
 
-func (tqvLog) Infof(ctx context.Context, format string, args ...interface{})     {}
-func (tqvLog) Errorf(ctx context.Context, format string, args ...interface{})    {}
+func (tqvLog) Infof(ctx context.Context, format string, args ...interface{})      {}
+func (tqvLog) Errorf(ctx context.Context, format string, args ...interface{})     {}
 func (tqvLog) Record(ctx context.Context, r map[string]string, obscure ...string) {}
 
 type tqvKeychain struct{}
